@@ -152,6 +152,15 @@ Theorem C14_from_dict_mirrors_input : forall (dd : dmapper) (calc : info -> res 
 Proof. exact from_dict_built. Qed.
 Print Assumptions C14_from_dict_mirrors_input.
 
+(* ... and the explicit node ids it registered ([nids]: the "node_id" entries of
+   the items, int()-converted, in pre-order; by C14_from_dict_mirrors_input
+   these are the node ids of the built nodes) are pairwise different and not 0 *)
+Theorem C14_from_dict_node_ids : forall (dd : dmapper) (calc : info -> res did) (next : nat) (obj : list jv) (f : forest),
+  from_dict dd calc next obj = inl f ->
+  NoDup (flat_map nids (map parse obj)) /\ ~ In 0%Z (flat_map nids (map parse obj)).
+Proof. exact from_dict_node_ids. Qed.
+Print Assumptions C14_from_dict_node_ids.
+
 (* the other direction: a canonical dict list (per item exactly what to_dict
    writes: "data" a string that reads back under that name, "data_id" only when
    not the default, "children" only when non-empty) is reproduced exactly by
